@@ -56,7 +56,7 @@ def handleLine (line : String) : String :=
   | "C07" :: rest => PointCodec.handle rest
   | "C12" :: rest => SigOps.handle rest
   | "C13" :: rest => HashToField.handle rest
-  | "C03" :: rest => ScalarMul.handle rest
+  | "C03" :: rest => ScalarMul.handleTop rest
   | "C14" :: "mimc" :: rest => MiMC.handle rest
   | "C14" :: "p2perm" :: rest => Poseidon2.handlePerm rest
   | "C14" :: "p2comp" :: rest => Poseidon2.handleComp rest
